@@ -281,6 +281,28 @@ func (w *WrapCloser) Close(ctx context.Context) error {
 	return w.Inner.CloseErr
 }
 
+// WrapLayer is one decorator in a chain of decorators: no Close of its own, Unwrap hands out the next layer.
+type WrapLayer struct {
+	Inner *N
+	Next  eventlogger.Node
+}
+
+func (w *WrapLayer) Process(ctx context.Context, e *eventlogger.Event) (*eventlogger.Event, error) {
+	return w.Inner.Process(ctx, e)
+}
+func (w *WrapLayer) Reopen() error              { return w.Inner.Reopen() }
+func (w *WrapLayer) Type() eventlogger.NodeType { return w.Inner.Type() }
+func (w *WrapLayer) Unwrap() eventlogger.Node   { return w.Next }
+
+// WrapDeep wraps n in depth decorators (none of them a Closer); the innermost hands out the closable node.
+func WrapDeep(n *N, depth int) eventlogger.Node {
+	var cur eventlogger.Node = &WrapPlain{Inner: n}
+	for i := 1; i < depth; i++ {
+		cur = &WrapLayer{Inner: n, Next: cur}
+	}
+	return cur
+}
+
 // closerOnly is what Unwrap hands out: the inner node with its Close (counted on the inner N).
 type closerOnly struct{ *N }
 
